@@ -411,3 +411,114 @@ def case_public(case):
     keep = ["variant", "cone", "W", "m", "K", "mu", "eps", "delta", "noise_var", "contraction", "batch", "ds_family", "scale",
             "model", "stub_mode", "obs_mode", "costs", "budget", "rho_s", "rho_g", "seed", "max_rounds", "hetero"]
     return {k: case.get(k) for k in keep}
+
+
+# ---------------------------------------------------------------------------------------
+# VOGP_AD on user-defined continuous problems
+# ---------------------------------------------------------------------------------------
+def make_continuous_problem(rng, d, m, noise_var, depth_max):
+    from vopy.maximization_problem import ContinuousProblem
+
+    A = rng.normal(size=(d, m)) * 1.5
+    B = rng.normal(size=(d, m))
+    ph = rng.uniform(0, 3, size=m)
+
+    class UserProblem(ContinuousProblem):
+        bounds = [(0.0, 1.0)] * d
+        in_dim = d
+        out_dim = m
+
+        def __init__(self, noise_var):
+            self.depth_max = depth_max
+            super().__init__(noise_var)
+
+        def evaluate_true(self, x):
+            x = np.atleast_2d(x)
+            return np.sin(x @ A + ph) + 0.5 * (x @ B)
+
+    return UserProblem(noise_var)
+
+
+def make_ad_case(rng, **over):
+    d = int(over.get("d", rng.choice([2, 2, 3])))
+    m = int(over.get("m", 2))
+    fams = over.get("cone_families", ["orthant", "theta", "random"] if m == 2 else ["orthant", "cone3d", "random"])
+    label, order = gen.random_order(rng, m, allow_Kgtm=False, families=fams)
+    case = {"variant": "VOGP_AD", "cone": label, "W": order.ordering_cone.W, "m": m, "in_dim": d, "K": None, "mu": None,
+            "X": None, "eps": float(over.get("eps", rng.choice([0.3, 0.5, 0.8]))), "delta": 0.1,
+            "noise_var": float(over.get("noise_var", 10 ** rng.uniform(-3, -2))), "contraction": float(over.get("contraction", rng.choice([8, 16, 32]))),
+            "batch": 1, "depth_max": int(over.get("depth_max", rng.choice([2, 3, 3, 4]) if d < 3 else rng.choice([2, 3]))),
+            "seed": int(rng.integers(2**31)), "max_rounds": int(over.get("max_rounds", 150)), "n_train": int(over.get("n_train", 64)),
+            "ds_family": "continuous", "scale": 1.0, "model": "real", "stub_mode": None, "obs_mode": "real", "costs": None, "budget": None,
+            "rho_s": None, "rho_g": None, "hetero": None}
+    return case, order
+
+
+def build_vogp_ad(case, order):
+    import vopy.algorithms.vogp_ad as VA
+    from vopy.utils import generate_sobol_samples
+
+    rng = np.random.default_rng(case["seed"])
+    problem = make_continuous_problem(rng, case["in_dim"], case["m"], case["noise_var"], case["depth_max"])
+    real = VA.get_gpytorch_model_w_known_hyperparams
+
+    def small(model_class, prob, noise_var, initial_sample_cnt, X=None, Y=None):
+        X = generate_sobol_samples(prob.in_dim, case["n_train"])
+        Y = prob.evaluate(X)
+        return real(model_class, prob, noise_var, initial_sample_cnt, X=X, Y=Y)
+
+    VA.get_gpytorch_model_w_known_hyperparams = small
+    try:
+        alg = VA.VOGP_AD(epsilon=case["eps"], delta=case["delta"], problem=problem, order=order, noise_var=case["noise_var"],
+                         conf_contraction=case["contraction"])
+    finally:
+        VA.get_gpytorch_model_w_known_hyperparams = real
+    return alg, problem
+
+
+def run_ad_case(case, order, mon, per_step=None):
+    install_global_loggers()
+    np.random.seed(case["seed"] % (2**31))
+    import torch
+
+    torch.manual_seed(case["seed"] % (2**31))
+    try:
+        alg, problem = build_vogp_ad(case, order)
+    except Exception as e:
+        t = type("T", (), {})()
+        t.steps, t.terminated, t.crashed, t.cap_reached, t.ctor_crash, t.alg, t.case = [], False, e, False, traceback.format_exc(), None, case
+        return t
+    tr = Tracer(alg, case, None, mon)
+    tr.ctor_crash, tr.terminated, tr.crashed, tr.cap_reached = None, False, None, False
+    # observe the epsilon-covering gate
+    orig_cover = alg.epsiloncovering  # already wrapped by the tracer
+
+    def cover():
+        ds = alg.design_space
+        tr.cur["gate_before"] = bool(alg.enable_epsilon_covering)
+        tr.cur["all_S_at_max_depth"] = all(ds.point_depths[i] == alg.max_discretization_depth for i in alg.S)
+        out = orig_cover()
+        tr.cur["gate_open"] = bool(alg.enable_epsilon_covering)
+        return out
+
+    alg.epsiloncovering = cover
+    for r in range(case["max_rounds"]):
+        rec = tr.step()
+        if per_step is not None:
+            per_step(tr, rec)
+        if rec["crash"] is not None:
+            tr.crashed = rec["crash"]
+            return tr
+        if rec["returned"]:
+            tr.terminated = True
+            break
+    else:
+        tr.cap_reached = True
+        return tr
+    for _ in range(2):
+        rec = tr.step()
+        rec["after_completion"] = True
+        if rec["crash"] is not None:
+            tr.crashed = rec["crash"]
+            break
+    return tr
